@@ -48,6 +48,27 @@ def labelmap_history(rng, n):
     return {"ev": ev}
 
 
+def _extra(fn):
+    """Extras model behaviour BEYOND the listed properties (internal APIs).  They must never turn a
+    refactoring of such an API into an alarm or a machinery failure of a listed property: if the API
+    they drive is gone or behaves differently the extra is skipped / reported as DRIFT."""
+    import functools
+
+    @functools.wraps(fn)
+    def wrapper(v: Verdict, tier: str):
+        from .common import Machinery
+        try:
+            return fn(v, tier)
+        except Machinery:
+            raise
+        except Exception as e:  # noqa: BLE001
+            v.notes.append(f"{fn.__name__} skipped: the internal API it drives changed ({type(e).__name__}: {str(e)[:120]})")
+            print(f"DRIFT property={v.prop} {fn.__name__}: internal API changed, extra skipped ({type(e).__name__})", flush=True)
+            return None
+    return wrapper
+
+
+@_extra
 def extra_labelmap(v: Verdict, tier: str):
     rng = random.Random(seed() * 7919 + 303)
     run_models(v, [("LabelMap", "MC_LabelMap.cfg")])
@@ -55,7 +76,7 @@ def extra_labelmap(v: Verdict, tier: str):
         recs = [labelmap_history(rng, rng.randint(3, 14)) for _ in range(150 if tier == "quick" else 3000)]
     n = validate_traces(v, "Trace_LabelMap", ["T_AddOutcome", "T_DictAfter", "T_Query", "T_Functional"], recs,
                         lambda r, c: {"extra": "InstanceLabelMap"}, what_fn=lambda r, c: "InstanceLabelMap API history",
-                        spec_name="Spec")
+                        spec_name="Spec", drift_clauses=("T_AddOutcome", "T_DictAfter", "T_Query", "T_Functional"))
     v.cov["extra_labelmap_histories"] = n
 
 
@@ -107,6 +128,7 @@ def lazy_history(rng, n):
     return {"cf": {"lists": lists, "globals": globs, "nopred": npred == 0, "noref": nref == 0, "tpzero": tp == 0, "sqnone": sqnone}, "ev": ev}
 
 
+@_extra
 def extra_lazy_result(v: Verdict, tier: str):
     rng = random.Random(seed() * 7919 + 202)
     run_models(v, [("MC_ResultLazy", f"MC_ResultLazy_{c}.cfg") for c in "abc"])
@@ -115,7 +137,7 @@ def extra_lazy_result(v: Verdict, tier: str):
         warnings.simplefilter("ignore")
         recs = [lazy_history(rng, rng.randint(3, 15)) for _ in range(200 if tier == "quick" else 4000)]
     n = validate_traces(v, "Trace_ResultLazy", ["T_Outcome", "T_Visible"], recs, lambda r, c: {"extra": "PanopticaResult-lazy-metrics"},
-                        what_fn=lambda r, c: f"lazy metric history cf={r['cf']}")
+                        what_fn=lambda r, c: f"lazy metric history cf={r['cf']}", drift_clauses=("T_Outcome", "T_Visible"))
     v.cov["extra_lazy_result_histories"] = n
 
 
@@ -155,13 +177,15 @@ def crop_record(rng):
     return rec
 
 
+@_extra
 def extra_crop(v: Verdict, tier: str):
     rng = random.Random(seed() * 7919 + 404)
     with quiet():
         recs = [crop_record(rng) for _ in range(300 if tier == "quick" else 5000)]
     n = validate_traces(v, "Trace_Crop", ["T_Completes", "T_CropIsSubarray", "T_NoVoxelLost", "T_UncropRestores"], recs,
                         lambda r, c: {"extra": "crop/uncrop", "cls": r["meta"]["cls"]},
-                        what_fn=lambda r, c: f"crop/uncrop {r['meta']} shape={r['shape']}")
+                        what_fn=lambda r, c: f"crop/uncrop {r['meta']} shape={r['shape']}",
+                        drift_clauses=("T_Completes", "T_CropIsSubarray", "T_NoVoxelLost", "T_UncropRestores"))
     v.cov["extra_crop_uncrop_records"] = n
 
 
@@ -209,12 +233,13 @@ def validate_record(rng):
     return rec
 
 
+@_extra
 def extra_input_contract(v: Verdict, tier: str):
     rng = random.Random(seed() * 7919 + 505)
     recs = [validate_record(rng) for _ in range(300 if tier == "quick" else 5000)]
     n = validate_traces(v, "Trace_Validate", ["T_ValidAccepted", "T_InvalidRejected"], recs,
                         lambda r, c: {"extra": "input-contract", "kind": r["kind"], "dclass": r["dclass"], "out": r["out"]},
-                        what_fn=lambda r, c: f"input contract {r['kind']} {r['meta']}")
+                        what_fn=lambda r, c: f"input contract {r['kind']} {r['meta']}", drift_clauses=("T_InvalidRejected",))
     v.cov["extra_input_contract_records"] = n
 
 
@@ -312,6 +337,7 @@ def exhaustive_group_records(top: int):
     return recs
 
 
+@_extra
 def extra_groups(v: Verdict, tier: str):
     rng = random.Random(seed() * 7919 + 606)
     with quiet():
@@ -319,6 +345,8 @@ def extra_groups(v: Verdict, tier: str):
     recs += exhaustive_group_records(20 if tier == "quick" else 28)
     for r in recs:
         r.setdefault("meta", {})
-    n = validate_traces(v, "Trace_Groups", ["T_GroupValidity", "T_GroupLabels", "T_GroupExtract", "T_GroupsKeys", "T_GroupsContent", "T_GroupsDefined"],
-                        recs, lambda r, c: {"extra": "class-group construction", "kind": r["kind"]}, what_fn=lambda r, c: f"class groups {r['kind']} {r.get('entries') or r.get('labels')}")
+    # T_GroupExtract (what a group selects from an array) is what C12 is about; the construction rules are not
+    n = validate_traces(v, "Trace_Groups", ["T_GroupExtract", "T_GroupValidity", "T_GroupLabels", "T_GroupsKeys", "T_GroupsContent", "T_GroupsDefined"],
+                        recs, lambda r, c: {"extra": "class-group construction", "kind": r["kind"]},
+                        drift_clauses=("T_GroupValidity", "T_GroupLabels", "T_GroupsKeys", "T_GroupsContent", "T_GroupsDefined"), what_fn=lambda r, c: f"class groups {r['kind']} {r.get('entries') or r.get('labels')}")
     v.cov["extra_group_construction_records"] = n
